@@ -306,6 +306,14 @@ func c09JobsCase(c *Case, fam string) {
 			return false
 		}
 		c.Count("job_buckets_compared", len(order))
+		for k := 0; k+1 < len(order); k++ {
+			a, b := jobs[order[k]], jobs[order[k+1]]
+			for _, st := range c09States {
+				if a.has(st) && !b.has(st) && b.observes(st) {
+					c.SetAdd("adjacent_random", st+":"+c09Kind(a)+">"+c09Kind(b))
+				}
+			}
+		}
 		for _, i := range order {
 			id := jobs[i].ID
 			if c09Equal(bk[id], ref[id]) {
@@ -366,6 +374,167 @@ func c09JobsCase(c *Case, fam string) {
 		d := c09Compose(h, jobs, all)
 		ds, _ := c09Lint(d.Src, tools)
 		c.Sample(map[string]interface{}{"family": fam, "src": d.Src, "tools": tools, "diags": diagStrings(ds)})
+	}
+}
+
+func c09Kind(j *c09Job) string {
+	if j.has("call-job") {
+		return "call"
+	}
+	return "steps"
+}
+
+// ---------------------------------------------------------------------------
+// adjacent pairs: for every piece of per-job state and every job kind, a job WITH the state is
+// directly followed by a job WITHOUT it that observes it
+
+type c09Pair struct {
+	State                string
+	LeadCall, FollowCall bool
+}
+
+func c09KindName(call bool) string {
+	if call {
+		return "call"
+	}
+	return "steps"
+}
+
+func (p c09Pair) key() string {
+	return p.State + ":" + c09KindName(p.LeadCall) + ">" + c09KindName(p.FollowCall)
+}
+
+func c09Pairs() []c09Pair {
+	var out []c09Pair
+	for _, st := range c09States {
+		for _, lc := range []bool{false, true} {
+			for _, fc := range []bool{false, true} {
+				if st == "stepids" && lc {
+					continue // a call job has no steps
+				}
+				if (st == "shell" || st == "windows") && fc {
+					continue // a call job has no script whose shell could be observed
+				}
+				out = append(out, c09Pair{st, lc, fc})
+			}
+		}
+	}
+	return out
+}
+
+func c09WantFor(state string, v int, w *c09Want) {
+	switch state {
+	case "matrix":
+		w.Matrix = v
+	case "stepids":
+		w.StepIDs = v
+	case "shell":
+		w.Shell = v
+	case "windows":
+		w.Windows = v
+	case "container":
+		w.Container = v
+	case "services":
+		w.Services = v
+	case "env":
+		w.Env = v
+	case "permissions":
+		w.Permissions = v
+	case "concurrency":
+		w.Concurrency = v
+	}
+}
+
+func c09PairsCase(c *Case, fam string) {
+	r := c.R
+	pairs := c09Pairs()
+	p := pairs[c.Idx%len(pairs)]
+	g := &c09Gen{r: r, noShell: true}
+	g.pickIDs(4)
+	h := g.header()
+	boolWant := func(b bool) int {
+		if b {
+			return 1
+		}
+		return -1
+	}
+	// job 0: anything; job 1: the leader WITH the state; job 2: the follower WITHOUT it; job 3: anything
+	jobs := []*c09Job{g.job(0, nil)}
+	lw := c09Want{Call: boolWant(p.LeadCall)}
+	c09WantFor(p.State, 1, &lw)
+	var ldeps []int
+	if p.State == "needs" {
+		ldeps = []int{0}
+	}
+	jobs = append(jobs, g.jobWant(1, ldeps, lw))
+	fw := c09Want{Call: boolWant(p.FollowCall), Observe: p.State}
+	c09WantFor(p.State, -1, &fw)
+	jobs = append(jobs, g.jobWant(2, nil, fw))
+	jobs = append(jobs, g.job(3, nil))
+	lead, fol := jobs[1], jobs[2]
+	if !lead.has(p.State) || fol.has(p.State) || c09Kind(lead) != c09KindName(p.LeadCall) || c09Kind(fol) != c09KindName(p.FollowCall) {
+		c.Violation("C09:pairs:monitor-bug-pair-not-as-requested", "monitor bug: the generator did not produce the requested leader / follower",
+			map[string]interface{}{"pair": p.key(), "leader": lead.lines(), "leader_feats": lead.Feats, "follower": fol.lines(), "follower_feats": fol.Feats})
+		return
+	}
+	tools := p.State == "shell" || p.State == "windows" || r.Chance(1, 3)
+
+	ref := map[string][]string{}
+	refSrc := map[string]string{}
+	for i := range jobs {
+		d := c09Compose(h, jobs, c09Closure(jobs, []int{i}))
+		bk, ok := c09Observe(c, fam, d, tools, 1)
+		if bk == nil || !ok {
+			return
+		}
+		ref[jobs[i].ID] = bk[jobs[i].ID]
+		refSrc[jobs[i].ID] = d.Src
+	}
+	c.SetAdd("adjacent_pairs", p.key())
+	pat := ""
+	switch p.State {
+	case "matrix", "stepids", "needs":
+		pat = "is not defined in object type {}"
+	case "shell", "windows":
+		pat = "shellcheck reported issue"
+	}
+	if pat != "" && strings.Contains(strings.Join(ref[fol.ID], "\n"), pat) {
+		c.SetAdd("adjacent_pairs_observed", p.key())
+	}
+	c.Nontrivial(fam + "|" + refSrc[fol.ID])
+	for v, order := range [][]int{{0, 1, 2, 3}, {1, 2}, {2, 1}, {3, 1, 2, 0}, {1, 0, 2}} {
+		if p.State == "needs" && v != 0 && v != 3 {
+			order = append([]int{0}, order...) // the leader needs job 0
+			if v == 4 {
+				order = []int{0, 1, 2}
+			}
+		}
+		d := c09Compose(h, jobs, order)
+		bk, ok := c09Observe(c, fam, d, tools, 2)
+		if bk == nil || !ok {
+			return
+		}
+		c.Count("pair_buckets_compared", len(order))
+		for _, i := range order {
+			id := jobs[i].ID
+			if c09Equal(bk[id], ref[id]) {
+				continue
+			}
+			onlyRef, onlyGot := c09Diff(ref[id], bk[id])
+			var ids []string
+			for _, k := range order {
+				ids = append(ids, jobs[k].ID)
+			}
+			c.Logf("pair %s: job %q differs in order %v\n  only alone: %q\n  only composed: %q\n--- composed\n%s\n--- alone\n%s", p.key(), id, ids, onlyRef, onlyGot, d.Src, refSrc[id])
+			c.Violation(c09Sig("job", onlyRef, onlyGot),
+				fmt.Sprintf("diagnostics of job %q differ between the composed workflow (pair %s, order %d, jobs %v) and the workflow with only that job and the jobs it needs", id, p.key(), v, ids),
+				map[string]interface{}{"src": d.Src, "src_alone": refSrc[id], "job": id, "order": ids, "pair": p.key(), "tools": tools,
+					"expected_only_alone": onlyRef, "observed_only_composed": onlyGot})
+			return
+		}
+	}
+	if c.Idx == 0 {
+		c.Sample(map[string]interface{}{"family": fam, "pair": p.key(), "src": c09Compose(h, jobs, []int{0, 1, 2, 3}).Src, "tools": tools})
 	}
 }
 
@@ -643,6 +812,7 @@ func runC09(r *Run) {
 
 	fams := []*Family{
 		{Name: "jobs-compose", N: r.Q(500, 30000), Do: func(c *Case) { c09JobsCase(c, "jobs-compose") }},
+		{Name: "adjacent-pairs", N: len(c09Pairs()) * r.Q(6, 150), Do: func(c *Case) { c09PairsCase(c, "adjacent-pairs") }},
 		{Name: "steps-vary", N: r.Q(500, 20000), Do: func(c *Case) { c09StepsCase(c, "steps-vary") }},
 	}
 	fams = append(fams, c09ExprFamilies(r)...)
@@ -670,6 +840,26 @@ func runC09(r *Run) {
 		}
 		if r.Counter("compositions_with_diagnostics") < int64(r.Q(200, 10000)) {
 			r.Inconclusive("too few compositions with diagnostics")
+		}
+	}
+	if only == "" || only == "adjacent-pairs" {
+		for _, p := range c09Pairs() {
+			if !r.SetHas("adjacent_pairs", p.key()) {
+				r.Inconclusive("no composition where a job with state " + p.key() + " is directly followed by a job without it")
+			}
+			switch p.State {
+			case "matrix", "stepids", "needs", "shell", "windows":
+				if !r.SetHas("adjacent_pairs_observed", p.key()) {
+					r.Inconclusive("the follower of pair " + p.key() + " never produced the diagnostic that depends on the state")
+				}
+			}
+		}
+	}
+	if only == "" || only == "jobs-compose" {
+		for _, k := range []string{"matrix:steps>steps", "matrix:steps>call", "matrix:call>steps", "matrix:call>call", "needs:steps>steps", "stepids:steps>steps", "shell:steps>steps"} {
+			if !r.SetHas("adjacent_random", k) {
+				r.Inconclusive("random compositions never put a job with state directly before an observing job without it: " + k)
+			}
 		}
 	}
 	if only == "" || only == "expr-pairs" {
